@@ -640,6 +640,70 @@ def run_carrier(c):
         shutil.rmtree(wd, ignore_errors=True)
 
 
+class OtherReader:
+    """a readable, seekable, peekable object that is neither a raw file nor a BytesIO"""
+
+    def __init__(self, data):
+        self._f = io.BufferedReader(io.BytesIO(data))
+
+    def __getattr__(self, n):
+        if n == "raw" or n == "name":
+            raise AttributeError(n)
+        return getattr(self._f, n)
+
+
+def classify_warning(w):
+    msg = str(w.message)
+    if "In memory persistence is not compatible" in msg:
+        return "bytesio"
+    if "is not compatible with compressed file" in msg:
+        return "compressed"
+    if "is not a raw file" in msg:
+        return "notraw"
+    return type(w.message).__name__ + ":" + msg[:60]
+
+
+def run_loadmatrix(c):
+    """load(): every (source kind x mmap_mode x ensure_native_byte_order) for one compress form"""
+    import warnings
+    wd = tempfile.mkdtemp(dir=TMP)
+    try:
+        path = os.path.join(wd, "f.bin")
+        joblib.dump(VALUE, path, compress=mk_form(c["form"]))
+        data = open(path, "rb").read()
+        res = []
+        for sk in ("path", "pathlib", "rawfile", "bytesio", "other"):
+            for mm in (None, "r", "r+", "c", "w+"):
+                for na in ("auto", True, False):
+                    opened = None
+                    if sk == "path":
+                        src = path
+                    elif sk == "pathlib":
+                        src = pathlib.Path(path)
+                    elif sk == "rawfile":
+                        src = opened = open(path, "rb")
+                    elif sk == "bytesio":
+                        src = io.BytesIO(data)
+                    else:
+                        src = OtherReader(data)
+                    r = {"src": sk, "mmap": mm, "native": na}
+                    try:
+                        with warnings.catch_warnings(record=True) as ws:
+                            warnings.simplefilter("always")
+                            back = joblib.load(src, mmap_mode=mm, ensure_native_byte_order=na)
+                        r["warn"] = sorted(set(classify_warning(w) for w in ws))
+                        r["ok"] = back == VALUE
+                    except Exception as e:  # noqa
+                        r["raise"] = type(e).__name__
+                    finally:
+                        if opened is not None:
+                            opened.close()
+                    res.append(r)
+        return {"res": res}
+    finally:
+        shutil.rmtree(wd, ignore_errors=True)
+
+
 def main():
     try:
         for line in sys.stdin:
@@ -655,6 +719,8 @@ def main():
                     r = run_detect(c)
                 elif m == "detect2":
                     r = run_detect2(c)
+                elif m == "loadmatrix":
+                    r = run_loadmatrix(c)
                 elif m == "roundtrip" and c.get("carrier"):
                     r = run_carrier(c)
                 elif m == "roundtrip":
